@@ -87,8 +87,9 @@ SURR = "not (0xD800 <= {v} <= 0xDFFF)"
 
 
 def _rng(*pairs):
-    return lambda v: "(" + " or ".join(
-        (f"{v} == {a}" if a == b else f"{a} <= {v} <= {b}") for a, b in pairs) + ")"
+    # bitwise connectives on purpose: `a | b` on symbolic booleans builds ONE solver term, `a or b` forks the path
+    return lambda v: "(" + " | ".join(
+        (f"({v} == {a})" if a == b else f"(({a} <= {v}) & ({v} <= {b}))") for a, b in pairs) + ")"
 
 
 _NARROW_EXTRA = (0x0A, 0x85, 0xA0, 0xE9, 0x2028)
@@ -127,9 +128,9 @@ class Cls:
         ranges, _ = CLASS_DEFS[self.base]
         s = _rng(*ranges)(v)
         if self.plus:
-            s = "(" + s + " or " + " or ".join(f"{v} == {p}" for p in self.plus) + ")"
+            s = "(" + s + " | " + " | ".join(f"({v} == {p})" for p in self.plus) + ")"
         for m in self.minus:
-            s += f" and {v} != {m}"
+            s += f" & ({v} != {m})"
         return "(" + s + ")"
 
     def contains(self, c):
@@ -157,7 +158,7 @@ class Enum:
         self.cps = tuple(ord(c) if isinstance(c, str) else c for c in chars)
 
     def src(self, v):
-        return "(" + " or ".join(f"{v} == {c}" for c in self.cps) + ")"
+        return "(" + " | ".join(f"({v} == {c})" for c in self.cps) + ")"
 
     def contains(self, c):
         return c in self.cps
@@ -174,7 +175,7 @@ class IntRange:
         self.lo, self.hi = lo, hi
 
     def src(self, v):
-        return f"({self.lo} <= {v} <= {self.hi})"
+        return f"(({self.lo} <= {v}) & ({v} <= {self.hi}))"
 
     def contains(self, c):
         return self.lo <= c <= self.hi
